@@ -14,6 +14,7 @@ RULE = ('explicit-state BFS per past-time formula: one transition = one real upd
         '(generic object-graph dump of the monitor, reference summary of the history) with merges validated one step deep; '
         'invariant on every transition: update() value == reference rho at the last sample == rtamt offline evaluate(); '
         'non-trivial transition: the top operator mattered (reference output differs from every operand and is not +-inf); '
+        'in a third of the shards the (name, value) pairs of every second update() are listed in reverse order; '
         'co-resident layer: two live monitors (same text, or one containing the other) stepped in every interleaving, with reset() of the second as an event - '
         'each update() must still equal the reference on that monitor\'s own samples')
 ASSUMPTIONS = ['value alphabet V3 for the first variable, V3 or {-1,2} for the second; formulas with <= 2 operators, duplicates, 3-chains',
@@ -44,6 +45,7 @@ class DtOnlineModel(object):
         self.subs_h = [(g, int(refsem.horizon(g))) for g in self.subs]
         self.drop = drop
         self.exact = False      # True: values chosen so that every result is exactly representable; nothing is tolerated
+        self.alternate = False   # True: every second update() lists the (name, value) pairs in reverse order
         self.off = None
         if offline:
             try:
@@ -56,7 +58,10 @@ class DtOnlineModel(object):
         return impl.build('dt_on', self.text, self.vs, pastify=self.pastify, **self.kw)
 
     def apply(self, obj, hist, e):
-        return impl.outcome(impl.dt_update, obj, len(hist), dict(zip(self.vs, e)))
+        pairs = list(zip(self.vs, e))
+        if self.alternate and len(hist) % 2 == 1:
+            pairs.reverse()
+        return impl.outcome(impl.dt_update, obj, len(hist), dict(pairs))
 
     def implkey(self, obj):
         return explore.snapshot(obj, self.drop)
@@ -275,6 +280,8 @@ def shards(tier):
     fs = formula_set(tier)
     per = 6 if tier == 'quick' else 2
     out = [{'formulas': [F.to_json(f) for f in fs[i:i + per]]} for i in range(0, len(fs), per)]
+    for k in range(0, len(out), 3):
+        out[k]['alternate'] = True       # in these shards the (name, value) pairs of every second update() are listed in reverse order
     ds = deep_set(tier)
     out += [{'formulas': [F.to_json(f) for f in ds[i:i + 2]], 'deep': True} for i in range(0, len(ds), 2)]
     ls = long_set(tier)
@@ -361,7 +368,10 @@ def run_long(res, mod, f, tier, pastify=False, delay=0, text=None):
         res.traces += 1
         bad = None
         for i, e in enumerate(t):
-            k, v = impl.outcome(impl.dt_update, obj, i, dict(zip(vs, e)))
+            pairs = list(zip(vs, e))
+            if i % 2:
+                pairs.reverse()          # the order of the (name, value) pairs is the caller's business and may change from call to call
+            k, v = impl.outcome(impl.dt_update, obj, i, dict(pairs))
             res.transitions += 1
             if k != 'ok':
                 bad = 'update() number %d raised %s' % (i + 1, v)
@@ -433,6 +443,11 @@ def run_shard(shard, tier, res):
             model.exact = True
             extra = {'exact': True}
             p = dict(values=BIG_VALUES, maxdepth=5, max_transitions=400 if tier == 'quick' else 4000, validate='first')
+        if len(F.fvars(f)) >= 2 and (shard.get('ints') or shard.get('longnames') or shard.get('alternate')) and model is None:
+            model = DtOnlineModel(f, p['values'])
+            model.alternate = True
+            extra = {'alternate': True}
+            res.flags['alternating_pair_order'] += 1
         st, m = explore_formula(res, mod, f, p, model=model, extra=extra)
         res.sample({'spec': m.text, 'events': [list(e) for e in m.events[:4]], 'states': st.states,
                     'transitions': st.transitions, 'fixpoint': st.fixpoint, 'max_depth': st.maxdepth}, 1)
@@ -460,6 +475,7 @@ def check_case(case):
     m = DtOnlineModel(f, (F.V3,), text=case['spec'], variables=case['vars'], pastify=case.get('pastify', False),
                       delay=case.get('delay', 0), subspecs=case.get('subspecs', ()), consts=[tuple(c) for c in case.get('consts', ())])
     m.exact = bool(case.get('exact'))
+    m.alternate = bool(case.get('alternate'))
     obj = m.fresh()
     hist = tuple(tuple(e) for e in case['history'])
     msgs = []
